@@ -60,6 +60,44 @@ Section Crypto.
     exact (alteration_changes_input _ _ _ _ W' W R' R Hne E).
   Qed.
 
+  (* idealised: the only signature that verifies for m under pk is the one made
+     with sk (unique signatures); then any altered signature - a flipped bit, a
+     truncation - is rejected, whatever the records *)
+  Lemma altered_signature_rejected :
+    (forall m sg, verify pk m sg = true -> sg = sign sk m) ->
+    forall k o t c ttl rrset inc exp s scratch,
+      valid_abs o -> uniform o t c ttl rrset ->
+      sign_rrset k rrset inc exp = Ok (s, scratch) ->
+      forall seen sg', resolver_view o t c rrset seen ->
+        sg' <> sign sk scratch ->
+        verify_signed_data pk (k_alg k) s sg' (signed_data s seen) <> Ok tt.
+  Proof.
+    intros Huniq k o t c ttl rrset inc exp s scratch Hv Hu Hs seen sg' Hseen Hne.
+    rewrite (validator_rebuilds_signer_input _ _ _ _ _ _ _ _ _ _ Hv Hu Hs seen Hseen).
+    unfold verify_signed_data.
+    destruct (verify_checks_algorithm_match && negb (s_alg s =? k_alg k)); [discriminate|].
+    destruct (verify pk scratch sg') eqn:E; [|discriminate].
+    apply Huniq in E. contradiction.
+  Qed.
+
+  (* idealised: a signature made with sk verifies under no other public key *)
+  Lemma foreign_key_rejected :
+    (forall pk' m, verify pk' m (sign sk m) = true -> pk' = pk) ->
+    forall k o t c ttl rrset inc exp s scratch,
+      valid_abs o -> uniform o t c ttl rrset ->
+      sign_rrset k rrset inc exp = Ok (s, scratch) ->
+      forall seen pk' dalg, resolver_view o t c rrset seen ->
+        pk' <> pk ->
+        verify_signed_data pk' dalg s (sign sk scratch) (signed_data s seen) <> Ok tt.
+  Proof.
+    intros Hkey k o t c ttl rrset inc exp s scratch Hv Hu Hs seen pk' dalg Hseen Hne.
+    rewrite (validator_rebuilds_signer_input _ _ _ _ _ _ _ _ _ _ Hv Hu Hs seen Hseen).
+    unfold verify_signed_data.
+    destruct (verify_checks_algorithm_match && negb (s_alg s =? dalg)); [discriminate|].
+    destruct (verify pk' scratch (sign sk scratch)) eqn:E; [|discriminate].
+    apply Hkey in E. contradiction.
+  Qed.
+
   (* a key of another algorithm is refused before any cryptography *)
   Lemma algorithm_mismatch_rejected s signature data dalg :
     s_alg s <> dalg -> verify_signed_data pk dalg s signature data = Err 1.
@@ -74,9 +112,14 @@ Example crypto_hypotheses_satisfiable :
   let sign := fun (_ : unit) (m : bytes) => m in
   let verify := fun (_ : unit) (m s : bytes) => match lex_cmp m s with Eq => true | _ => false end in
   (forall m, verify tt m (sign tt m) = true) /\
-  (forall m m', verify tt m' (sign tt m) = true -> m' = m).
+  (forall m m', verify tt m' (sign tt m) = true -> m' = m) /\
+  (forall m sg, verify tt m sg = true -> sg = sign tt m) /\
+  (forall pk' m, verify pk' m (sign tt m) = true -> pk' = tt).
 Proof.
   cbv zeta. split.
   - intros m. rewrite lex_cmp_refl. reflexivity.
-  - intros m m' H. destruct (lex_cmp m' m) eqn:E; try discriminate. apply lex_cmp_eq. exact E.
+  - split; [|split].
+    + intros m m' H. destruct (lex_cmp m' m) eqn:E; try discriminate. apply lex_cmp_eq. exact E.
+    + intros m sg H. destruct (lex_cmp m sg) eqn:E; try discriminate. symmetry. apply lex_cmp_eq. exact E.
+    + intros [] m _. reflexivity.
 Qed.
